@@ -364,6 +364,8 @@ TEXTUAL = [
     ("C13", "hals-docstring-increment-form", "tensorly/solvers/nnls.py", "                newV = tl.clip(num / den, a_min=epsilon)", "                newV = tl.clip(V[k, :] + (num - UtU[k, k] * V[k, :]) / den, a_min=epsilon)"),
     ("C07", "hals-docstring-increment-form", "tensorly/solvers/nnls.py", "                newV = tl.clip(num / den, a_min=epsilon)", "                newV = tl.clip(V[k, :] + (num - UtU[k, k] * V[k, :]) / den, a_min=epsilon)"),
     ("C13", "hals-correction-term-halved", "tensorly/solvers/nnls.py", "                num = UtM[k, :] - tl.dot(UtU[k, :], V) + UtU[k, k] * V[k, :]\n", "                num = UtM[k, :] - tl.dot(UtU[k, :], V) + 0.5 * UtU[k, k] * V[k, :]\n"),
+    ("C14", "parafac2-weights-absorbed-only-when-normalising", "tensorly/decomposition/_parafac2.py", "        factors[1] = factors[1] * T.reshape(weights, (1, -1))\n        weights = T.ones(weights.shape, **tl.context(tensor_slices[0]))\n", "        if normalize_factors:\n            factors[1] = factors[1] * T.reshape(weights, (1, -1))\n            weights = T.ones(weights.shape, **tl.context(tensor_slices[0]))\n"),
+    ("C14", "parafac2-weights-absorbed-after-projections", "tensorly/decomposition/_parafac2.py", "        factors[1] = factors[1] * T.reshape(weights, (1, -1))\n        weights = T.ones(weights.shape, **tl.context(tensor_slices[0]))\n\n        # Will we be performing a line search iteration?\n        if linesearch and iteration % 2 == 0 and iteration > 5:\n            line_iter = True\n            factors_last = [tl.copy(f) for f in factors]\n        else:\n            line_iter = False\n\n        projections = _compute_projections(\n            tensor_slices, factors, svd, random_state=rng\n        )\n", "        # Will we be performing a line search iteration?\n        if linesearch and iteration % 2 == 0 and iteration > 5:\n            line_iter = True\n            factors_last = [tl.copy(f) for f in factors]\n        else:\n            line_iter = False\n\n        projections = _compute_projections(\n            tensor_slices, factors, svd, random_state=rng\n        )\n        factors[1] = factors[1] * T.reshape(weights, (1, -1))\n        weights = T.ones(weights.shape, **tl.context(tensor_slices[0]))\n"),
     ("C03", "cp-ctor-skips-validation", "tensorly/cp_tensor.py", "        shape, rank = _validate_cp_tensor(cp_tensor)\n        weights, factors = cp_tensor\n", "        weights, factors = cp_tensor\n        shape, rank = tuple(f.shape[0] for f in factors), factors[0].shape[1]\n"),
     ("C03", "tt-vec-of-other-family", "tensorly/tt_tensor.py", "    return tl.tensor_to_vec(tt_to_tensor(factors))", "    return tl.tensor_to_vec(tt_to_tensor(factors[::-1]))"),
     ("C03", "tucker-unfolded-wrong-mode", "tensorly/tucker_tensor.py", "        mode,\n    )", "        mode + 1,\n    )"),
@@ -481,6 +483,7 @@ TEXTUAL_TWINS = [
     ("C08", "tr-svd-rank-rotation-via-open-ring", "tensorly/decomposition/_tr_svd.py", "        rank = rank[mode:-1] + rank[:mode] + [rank[mode]]\n", "        ring = rank[:-1]\n        ring = ring[mode:] + ring[:mode]\n        rank = ring + [ring[0]]\n"),
     ("C05", "nndsvd-positive-part-via-maximum", "tensorly/tenalg/svd.py", "        x_p, y_p = tl.clip(x, a_min=0.0), tl.clip(y, a_min=0.0)", "        x_p, y_p = tl.abs(tl.clip(x, a_min=0.0)), tl.clip(y, a_min=0.0)"),
     ("C04", "cp-mode-dot-contraction-into-weights-stored-back", "tensorly/cp_tensor.py", "        factor = T.dot(matrix_or_vector, factor)\n        mode = max(mode - 1, 0)\n        factors[mode] *= factor\n", "        weights = weights * T.dot(matrix_or_vector, factor)\n        if not copy:\n            cp_tensor.weights = weights\n"),
+    ("C14", "parafac2-weights-reset-with-ones-like", "tensorly/decomposition/_parafac2.py", "        weights = T.ones(weights.shape, **tl.context(tensor_slices[0]))\n", "        weights = T.ones(T.shape(weights), **tl.context(tensor_slices[0]))\n"),
     ("C01", "partial-fold-del-by-position", "tensorly/base.py", "    mode_dim = transposed_shape.pop(skip_begin + mode)", "    mode_dim = transposed_shape.pop(skip_begin + mode)\n    _n_axes = len(transposed_shape)"),
 ]
 
